@@ -387,7 +387,7 @@ theorem AllOk.handleRequest {srv : Server} (h : AllOk srv) (cfg : Config) (cn : 
   rw [heq] at this
   dsimp only
   split
-  · exact AllOk.closeConn this _
+  · exact AllOk.closeConn (srv := Sess.arm srv srv1 cn.id) (fun x hx => this x hx) _
   · exact fun x hx => AllOk.setMode this cn.id res.err x hx
 
 theorem AllOk.stepEv {srv : Server} (h : AllOk srv) (cfg : Config) (e : Event) : AllOk (stepEv cfg srv e).1 := by
